@@ -1,4 +1,5 @@
 import PRV.Gen.C20
+import PRV.Gen.C09
 import PRV.Model.Estimators
 import Mathlib.Tactic.Linarith
 import Mathlib.Tactic.FieldSimp
@@ -284,5 +285,15 @@ example : Rounding 0 id := fun y => ⟨0, by simp, by simp⟩
 example : Decay (fun _ => 1 / 2) := fun _ _ => by norm_num
 example : (({ totalWork := 600, first := 100 } : Mean).valuePer 160 1000000000) = some 10 := by
   rw [mean_total_over_elapsed _ _ (by decide)]; norm_num
+
+
+/-! ### where the conversions are used as a pair: the seller's mid-cycle allocation (regenerated) -/
+
+/-- `adjustHashrate` converts the missing rate to work over the time *left in the cycle* and converts what the allocator placed
+back over the *same* span: the pair is an inverse pair (`v2_inverse`) only then — over two different spans the contract would
+credit itself `remaining / cycle` of what it handed out -/
+theorem source_seller_converts_over_one_span :
+    PRV.Gen.C09.adjustSkeleton.contains
+      "if hashrateGHS > partialMinersThresholdGHS { job := hr.GHSToJobSubmittedV2(hashrateGHS, remainingCycleDuration); addedJob := p.addPartialMiners(job, remainingCycleDuration); addedGHS := hr.JobSubmittedToGHSV2(addedJob, remainingCycleDuration); hashrateGHS -= addedGHS }" = true := by decide +kernel
 
 end PRV.Props.C20
